@@ -21,8 +21,25 @@ MAX_BLOCKS = 14
 MAX_CALLS = 4
 
 
+class _Map:
+    """local renaming of an inlined body: callee local l -> l + base, except the return place when the call's destination is a
+    plain local (the inlined body then writes the destination directly, as the caller's own code would)"""
+
+    def __init__(self, base, ret=None):
+        self.base, self.ret = base, ret
+
+    def __call__(self, l):
+        if l == 0 and self.ret is not None:
+            return self.ret
+        return l + self.base
+
+
+def _m(base, l):
+    return base(l) if callable(base) else l + base
+
+
 def _ren_place(p, base):
-    return [p[0] + base, [({'i': e['i'] + base} if isinstance(e, dict) and 'i' in e else e) for e in p[1]]]
+    return [_m(base, p[0]), [({'i': _m(base, e['i'])} if isinstance(e, dict) and 'i' in e else e) for e in p[1]]]
 
 
 def _ren_operand(o, base):
@@ -50,7 +67,7 @@ def _ren_rvalue(r, base):
 def _ren_stmt(s, base):
     s = dict(s)
     if s['k'] in ('sl', 'sd'):
-        s['v'] = s['v'] + base
+        s['v'] = _m(base, s['v'])
     elif s['k'] == 'a':
         s['d'] = _ren_place(s['d'], base)
         s['r'] = _ren_rvalue(s['r'], base)
@@ -174,10 +191,14 @@ def _inline_sync(f, bi, g):
                     if f['locals'][k].get('h') == 'param' and f['locals'][k].get('s') == pt.get('s'):
                         f['locals'][k] = copy.deepcopy(conc)
     dest, target = t['d'], t['t']
+    direct = not dest[1]
+    lm = _Map(base, dest[0] if direct else None)
     for gb in g['blocks']:
-        nbk = {'c': gb['c'], 's': [_ren_stmt(s, base) for s in gb['s']], 't': _ren_term(gb['t'], base, nb), 'inl': g['id']}
+        nbk = {'c': gb['c'], 's': [_ren_stmt(s, lm) for s in gb['s'] if not (direct and s['k'] in ('sl', 'sd') and s['v'] == 0)],
+               't': _ren_term(gb['t'], lm, nb), 'inl': g['id']}
         if gb['t']['k'] == 'return' and not gb['c']:
-            nbk['s'].append({'k': 'a', 'd': dest, 'r': {'k': 'use', 'o': {'m': [base, []]}}, 'l': line})
+            if not direct:
+                nbk['s'].append({'k': 'a', 'd': dest, 'r': {'k': 'use', 'o': {'m': [base, []]}}, 'l': line})
             nbk['t'] = {'k': 'goto', 't': target, 'l': line} if target is not None else {'k': 'unreachable'}
         f['blocks'].append(nbk)
     B['t'] = {'k': 'goto', 't': nb, 'l': line}
